@@ -112,10 +112,14 @@ ScopeQuick ==
   \cup {Composite(Var(s), SumSeq(s) + 2, 2, 0, 2) : s \in SizeSeqs(3, 3)}
   \cup {Composite(Stripe(2, nn, rows), 2 * nn * rows + 2, 2, 0, 2) : nn \in 1..3, rows \in 1..2}
 ScopeThorough ==
-       {Aligned(2, am, 1..8, 8, 3, 2, 3) : am \in BOOLEAN}
-  \cup {Aligned(4, am, 1..14, 14, 3, 1, 2) : am \in BOOLEAN}
-  \cup {Aligned(8, am, 1..26, 26, 2, 0, 1) : am \in BOOLEAN}
-  \cup {Composite(Fixed(u, nn), u * nn + 2, 3, 1, 3) : u \in 1..5, nn \in 1..3}
-  \cup {Composite(Var(s), SumSeq(s) + 2, 3, 1, 3) : s \in SizeSeqs(3, 4)}
-  \cup {Composite(Stripe(stt, nn, rows), stt * nn * rows + 2, 3, 1, 3) : stt \in {1, 2, 4}, nn \in 1..3, rows \in 1..2}
+       {Aligned(2, am, 1..8, 8, 3, 0, 3) : am \in BOOLEAN}
+  \cup {Aligned(4, am, 1..14, 14, 3, 0, 2) : am \in BOOLEAN}
+  \cup {Aligned(8, am, 1..26, 26, 1, 0, 1) : am \in BOOLEAN}
+  \cup {Composite(Fixed(u, nn), u * nn + 2, 3, 1, 2) : u \in 1..5, nn \in 1..3}
+  \cup {Composite(Var(s), SumSeq(s) + 2, 3, 1, 2) : s \in SizeSeqs(3, 4)}
+  \cup {Composite(Stripe(stt, nn, rows), stt * nn * rows + 2, 3, 1, 2) : stt \in {1, 2, 4}, nn \in 1..3, rows \in 1..2}
+  \* three requests, single-buffer, on the smaller composites
+  \cup {Composite(Fixed(u, nn), u * nn + 2, 0, 0, 3) : u \in 1..3, nn \in 2..3}
+  \cup {Composite(Var(s), SumSeq(s) + 2, 0, 0, 3) : s \in SizeSeqs(3, 2)}
+  \cup {Composite(Stripe(2, nn, rows), 2 * nn * rows + 2, 0, 0, 3) : nn \in 2..3, rows \in 1..2}
 =============================================================================
